@@ -151,19 +151,21 @@ RangeAdversarial == LET I == SetToSeq(RangeAdvIdx) IN [j \in DOMAIN I |-> RangeA
 
 \* ---- keys and values, adversarially: odd key names x every kind of JSON value, in the default locale and in a second one
 KeyNames == { "k", "", "a-b", "type", "1a", "a b", "self", "_", "a.b", "a:b", "Self", "crate", "k_", "_one", "k_one_one" }
-AnyKinds == { "str", "null", "num", "neg", "float", "bool", "map", "emptymap", "seq", "emptyseq", "empty", "var", "inf", "neginf", "nan" }
+AnyKinds == { "str", "null", "num", "neg", "float", "bool", "map", "emptymap", "seq", "emptyseq", "empty", "var", "inf", "neginf", "nan", "fk", "fkself" }
 AnyNode(k) == CASE k = "str" -> S(<<"x">>) [] k = "null" -> Raw("null") [] k = "num" -> Raw("5") [] k = "neg" -> Raw("-3")
                 [] k = "float" -> Raw("1.5") [] k = "bool" -> Raw("true") [] k = "map" -> MapNode(<< E("s", S(<<"x">>)) >>)
                 [] k = "emptymap" -> MapNode(<<>>) [] k = "seq" -> SeqNode(<< SeqNode(<< S(<<"x">>) >>) >>) [] k = "emptyseq" -> SeqNode(<<>>)
-                [] k = "var" -> S(VarX) [] k \in {"inf", "neginf", "nan"} -> SpecialNode(k) [] OTHER -> S(<<>>)
+                [] k = "var" -> S(VarX) [] k \in {"inf", "neginf", "nan"} -> SpecialNode(k)
+                \* a reference to the sibling key z, and one to the key k itself (whatever k has become: a plural base, a dashed name ...)
+                [] k = "fk" -> S(Fk(<<"z">>)) [] k = "fkself" -> S(<<"p">> \o Fk(<<"k">>)) [] OTHER -> S(<<>>)
 KeyAdvIdx == { <<n, k1, k2>> : n \in {"k", "a-b", "type"}, k1 \in AnyKinds, k2 \in AnyKinds } \cup { <<n, k1, k1>> : n \in KeyNames, k1 \in AnyKinds }
 KeyAdversarial == LET I == SetToSeq(KeyAdvIdx) IN
     [j \in DOMAIN I |-> Double("key-adv", "any", << E(I[j][1], AnyNode(I[j][2])), E("z", S(<<"z">>)) >>, << E(I[j][1], AnyNode(I[j][3])), E("z", S(<<"z">>)) >>)]
 \* plural members of every kind of value
 PluralAdvIdx == { <<b, k1, k2>> : b \in {"k", "k_ordinal"}, k1 \in AnyKinds, k2 \in AnyKinds }
 PluralAdversarial == LET I == SetToSeq(PluralAdvIdx) IN
-    [j \in DOMAIN I |-> Double("plural-adv", "any", << E(I[j][1] \o "_one", AnyNode(I[j][2])), E(I[j][1] \o "_other", AnyNode(I[j][3])) >>,
-                                << E(I[j][1] \o "_one", AnyNode(I[j][3])), E(I[j][1] \o "_other", AnyNode(I[j][2])) >>)]
+    [j \in DOMAIN I |-> Double("plural-adv", "any", << E(I[j][1] \o "_one", AnyNode(I[j][2])), E(I[j][1] \o "_other", AnyNode(I[j][3])), E("z", S(<<"z">>)) >>,
+                                << E(I[j][1] \o "_one", AnyNode(I[j][3])), E(I[j][1] \o "_other", AnyNode(I[j][2])), E("z", S(<<"z">>)) >>)]
 
 \* names inside values: variables and components whose names are dashed, keywords, digits, empty; at top level, inside a
 \* dashed subkey group, inside a range branch, inside a plural form, and as the argument name of a foreign key
